@@ -716,10 +716,24 @@ func ruleC06Source(p *Prog, a *Anchors, r *Report) {
 			k := p.FuncName(x.Parent()) + ":" + name
 			if x.Index == 0 && (name == "io.ReadAll" || name == "os.ReadFile" || name == "io/ioutil.ReadAll") {
 				ends[k], pos[k] = "", p.InstrPos(c)
+			} else if srcs, followed := u6ResultSources(p, c, x.Index); followed {
+				// a package helper (readAndClose): the source is whatever its returns deliver at this index — the
+				// helper's body is traced like the caller's, a transformation inside it is found there
+				for _, sv := range srcs {
+					work = append(work, item{sv, it.depth + 1})
+				}
 			} else {
 				ends[k], pos[k] = "the source is the result of "+name+": it is transformed between the loader and the lexer", p.InstrPos(x)
 			}
 		case *ssa.Call:
+			if _, isTuple := x.Type().(*types.Tuple); !isTuple {
+				if srcs, followed := u6ResultSources(p, x, 0); followed {
+					for _, sv := range srcs {
+						work = append(work, item{sv, it.depth + 1})
+					}
+					continue
+				}
+			}
 			name := p.calleeName(x.Common())
 			k := p.FuncName(x.Parent()) + ":" + name
 			ends[k], pos[k] = "the source passes through "+name+" before it is scanned: literal text is no longer copied byte for byte (e.g. a stripped prefix, a normalised line ending)", p.InstrPos(x)
